@@ -91,6 +91,9 @@ WITNESSES += [  # statements that carry trivia a coercion has to strip: trailing
     ('_', 'arguments'), ('_, a', 'arguments'), ('_=1, *_a', 'arguments'), ('_', 'expr'), ('_, a', 'expr'), ('[_, *_]', 'expr'),
     ('f(_, k=_)', 'expr'), ('_', 'pattern'), ('a, _', 'pattern'), ('C(_, k=_)', 'pattern'), ('{1: _}', 'pattern'), ('_ | a', 'pattern'),
     ('_, k=_', '_arglikes'), ('_', 'arg'), ('k=_', 'keyword'), ('_, a', '_pattern_attrlikes'), ('_', 'type_param'),
+    # grouping parentheses inside the operand at places where the target kind has no parentheses (dotted names, call functions, **rest)
+    ('(a.b).c', 'expr'), ('((a).b).c.d', 'expr'), ('{(a.b).c: x}', 'expr'), ('(m.s).C(x)', 'expr'), ('(f)(a)', 'expr'), ('{1: a, **(r)}', 'expr'),
+    ('(a.b).c | d', 'expr'), ('[(a), (b.c)]', 'expr'), ('f(k=(a.b).c)', 'expr'), ('(a)', 'expr'), ('((a, b))', 'expr'),
     ('None, True', 'expr'), ("[None, 1, -1, 's', 1+2j, -1-2j]", 'expr'), ('None, -1, 1+2j', 'pattern'), ('_ as a', 'withitem'),
 ]
 
